@@ -224,18 +224,18 @@ class Ctx:
                         r.violated = mv.group(1) or "property"
                     if "Deadlock reached" in line:
                         r.violated = "Deadlock"
+                    if "Postcondition" in line and "is false" in line:
+                        r.violated = "Accepted(postcondition)"
                     in_trace = True
                 if in_trace and len(trace_lines) < 400:
                     trace_lines.append(line.rstrip("\n"))
                 m = _re_cov.match(line)
                 if m:
                     r.coverage[m.group(1)] = (int(m.group(7)), int(m.group(8)))
-                if line.startswith("VREG "):
-                    try:
-                        k, v = line.split()[1:3]
-                        r.registers[k] = int(v)
-                    except Exception:
-                        pass
+                if line.startswith('<<"VREG"'):
+                    mr = re.match(r'<<"VREG", "(\w+)", (-?\d+)>>', line)
+                    if mr:
+                        r.registers[mr.group(1)] = int(mr.group(2))
         r.trace_text = "\n".join(trace_lines)
         # keep only the tail of big outputs on disk
         if not keep:
@@ -430,6 +430,77 @@ class Ctx:
         if summary.get("bad", 0) != len(bad):
             self.notes[label + ".bad_total"] = summary.get("bad")
         return cnt, bad
+
+    def validate_traces(self, module, trace_path, *, key_prefix, invariants=(), name=None, dfs=False,
+                        timeout=900, max_rejections=6, constants=None, describe=None, heap=None):
+        """code -> spec: check that a file of reset-delimited recorded histories is accepted by the
+        trace specification `module` (Init/Next, CONSTRAINT HighWater, POSTCONDITION Accepted,
+        register 1 = high-water mark of the event index).  A rejected history is a disagreement
+        observed on the real code: it is reported, cut out, and the rest is validated again.
+        Returns (histories accepted, histories rejected)."""
+        lines = [x for x in open(trace_path).read().splitlines() if x.strip()]
+        starts = [i for i, x in enumerate(lines) if '"e":"reset"' in x.replace(" ", "")]
+        if not starts or starts[0] != 0:
+            raise Infra("trace %s does not start with a reset event" % trace_path)
+        total = len(starts)
+        rejected = 0
+        nev = len(lines)
+        for attempt in range(max_rejections + 1):
+            if not lines:
+                break
+            cfg = render_cfg(spec="Spec", constants=constants, invariants=invariants,
+                             constraints=["HighWater"], postcondition="Accepted")
+            r = self.tlc(module, cfg, constants=constants, name=(name or module) + "-%d" % attempt, workers=1,
+                         files={"trace.ndjson": "\n".join(lines) + "\n"}, timeout=timeout, dfs=dfs,
+                         allow_violation=True, want_json=False, heap=heap)
+            hw = r.registers.get("hw")
+            if r.violated and r.violated not in ("property",) and not r.violated.startswith("Accepted"):
+                # an invariant of the specification is false in a state of an implementation trace
+                hw = hw or self._trace_pos(r)
+            if hw is None:
+                raise Infra("trace validation %s: no high-water mark in TLC output\n%s" % (module, r.trace_text[:2000]))
+            if hw >= len(lines) + 1 and not r.violated:
+                break
+            if hw >= len(lines) + 1 and r.violated:
+                raise Infra("trace validation %s: TLC reports %s although the trace was consumed\n%s" % (module, r.violated, r.trace_text[:2000]))
+            # first event that no behaviour of the specification explains: index hw (1-based)
+            starts = [i for i, x in enumerate(lines) if '"e":"reset"' in x.replace(" ", "")]
+            seg = max(i for i in starts if i <= hw - 1)
+            nxt = min([i for i in starts if i > seg] + [len(lines)])
+            segment = lines[seg:nxt]
+            first_bad = hw - 1 - seg
+            rejected += 1
+            kind = ""
+            try:
+                kind = json.loads(segment[0]).get("kind", "")
+            except Exception:
+                pass
+            ev = segment[first_bad] if first_bad < len(segment) else "(end)"
+            extra = describe(segment, first_bad) if describe else ""
+            self.disagree("%s:%s:%s" % (key_prefix, kind, self._evname(ev)),
+                          "history rejected by %s at its event #%d %s%s (no behaviour of the specification explains it; "
+                          "invariant=%s)" % (module, first_bad, ev, extra, r.violated),
+                          case=json.dumps(segment), step=first_bad, source="trace")
+            lines = lines[:seg] + lines[nxt:]
+            if attempt == max_rejections:
+                self.notes["trace_validation_stopped_after"] = max_rejections
+        self.traces += total
+        self.notes.setdefault("trace_events", 0)
+        self.notes["trace_events"] += nev
+        return total - rejected, rejected
+
+    @staticmethod
+    def _evname(ev):
+        try:
+            d = json.loads(ev)
+            return str(d.get("e", "")) + (":" + str(d.get("op")) if "op" in d else "")
+        except Exception:
+            return "end"
+
+    @staticmethod
+    def _trace_pos(r):
+        m = re.findall(r"/\\ l = (\d+)", r.trace_text)
+        return int(m[-1]) if m else None
 
     def disagree(self, key, msg, case=None, step=None, source="trace"):
         self.disagreements.append(dict(key=key, msg=msg, step=step, case=case, source=source, label=source))
